@@ -17,6 +17,9 @@ use std::collections::{BTreeMap, HashSet};
 use std::sync::atomic::{AtomicU64, Ordering};
 use std::sync::Arc;
 
+#[path = "c02sched.rs"]
+mod sched;
+
 #[derive(Clone, Debug)]
 struct Event {
     stamp: u64,
@@ -1019,7 +1022,7 @@ pub fn run(a: &Args) {
     let mut out = Out::new(&a.out);
     let mut rng = Rng::new(a.seed);
     let rt = tokio::runtime::Builder::new_multi_thread().worker_threads(4).enable_all().build().unwrap();
-    rt.block_on(async {
+    let fixed = rt.block_on(async {
         // which routing does the tree have?  (same observation as C03)
         let fixed = {
             let st = new_state(4);
@@ -1062,7 +1065,11 @@ pub fn run(a: &Args) {
                 run_timed_case(&mut out, c).await;
             }
         }
+        fixed
     });
+    drop(rt);
+    // enumerated schedules: a current-thread runtime, request futures polled by hand
+    sched::run(&mut out, fixed, &mut Rng::new(a.seed ^ 0x5C4ED), a.n > 50_000);
     out.extra.insert("audit".into(), serde_json::from_str(r####"{
  "1 entry paths": "CLOSED: every ShardMessage kind that carries a client request is in the concurrent mix (generic incl. EVAL/EVALSHA, fast, pooled, batch get/set) — see C03 api_coverage; EvictExpired is not a client operation (no history event)",
  "2 input alphabet": "CLOSED: keys from C03's structured alphabet; values incl. integers / non-integers for INCR; OPEN: only string commands in histories (other types: C01)",
